@@ -86,13 +86,19 @@ pub fn check_infix(chrs: &Vec<char>) -> (Infix, usize) {
             }
         }
         else if c1 == '(' {
-            // Skip past text within parentheses: (...)
+            // Skip past text within parentheses, up to the
+            // matching parenthesis: (...(...)...)
+            let mut depth: usize = 0;
             let mut j = i + 1;
             while j < length {
                 let cx = chrs[j];
-                if cx == ')' {
-                    i = j;
-                    break;
+                if cx == '(' { depth += 1; }
+                else if cx == ')' {
+                    if depth == 0 {
+                        i = j;
+                        break;
+                    }
+                    depth -= 1;
                 }
                 j += 1;
             }
